@@ -426,6 +426,43 @@ def r19_precedence(c, facts, rule='C02.R19'):
         c.bad(R, 'operator-precedence:%s' % '<'.join(x.replace('Operator', '') for x in order), 'the operators nest as %s (loosest first) instead of %s: an unparenthesised mix such as `a ~ b | c ~ d` is read with another structure, and the document says something else than the program' % (order, PRECEDENCE), **inst)
 
 
+def r22_operands_whole(c, facts, rule='C02.R22'):
+    """an operand of `|`, `&`, `~` enters the operation as the schema it evaluated to - with the description, title,
+    examples and requiredness of that operand. eval_variadic_operation builds the list of operands and never takes one
+    of them apart: a nested operation of the same operator spliced into the outer one loses what was written on the
+    inner group (and a `oneOf` of a group and a schema becomes a flat `oneOf`)."""
+    R = c.rule(rule, 'OPERANDS-WHOLE: the evaluator of a variadic operation pushes each operand\'s schema whole; it never reads the operand list of a nested operation')
+    q = 'oal_compiler::eval::eval_variadic_operation'
+    fn = facts.normalised(c.anchor(R, q))
+    n = 0
+    bad = []
+    for g in [fn] + [facts.closure_flat(x)[0] for x in facts.closures_of(fn.orig if hasattr(fn, 'orig') else fn)]:
+        if not g.mir:
+            continue
+        for b, blk in g.blocks():
+            places = []
+            for st in blk['stmts']:
+                if st['s'] == 'assign':
+                    rv = st['rv']
+                    if rv['r'] in ('ref', 'rawptr', 'discr', 'len'):
+                        places.append(rv['place'])
+                    places += [o for o in MF.operands_of_rvalue(rv) if 'l' in o]
+            t = blk['term']
+            if t['t'] in ('call', 'callfield'):
+                places += [a for a in t['args'] if 'l' in a]
+            for pl in places:
+                n += 1
+                fp = MF.field_path(pl)
+                ty = g.mir['locals'][pl['l']]['ty']
+                if 'schemas' in fp and re.search(r'\b(Schema|SchemaExpr|VariadicOp)\b', ty):
+                    bad.append((b, ty, fp))
+    if bad:
+        c.bad(R, 'operand-taken-apart', '%s reads the operand list of an operand that is itself an operation (%s): the operand is not pushed whole, what was written on the group is gone from the document' % (q, bad[0][2]), fields=[list(x[2]) for x in bad])
+    else:
+        c.ok(R, {'fn': q, 'places_examined': n})
+    c.floor(R, 'places examined in the evaluator of variadic operations', n, 10)
+
+
 def r20_method_free(c, facts, rule='C02.R20'):
     """an operation is emitted from its transfer whatever the method: only the function that files operations under
     their method (and the one that prints a method) looks at it - an emitter that consults the method can drop a declared
@@ -456,6 +493,69 @@ def r20_method_free(c, facts, rule='C02.R20'):
         else:
             c.bad(R, '%s:depends-on-method' % home, '%s decides what it emits by the method of the operation: a part declared for a transfer is emitted for some of its methods only' % g.qname, **inst)
     c.floor(R, 'emitter functions examined', n, 30)
+
+
+def r21_annotation_precedence(c, facts, rule='C02.R21'):
+    """where a declaration's own annotations meet those of a use site, the use site wins (Annotation::extend lets its
+    argument override the receiver): the receiver is the declaration's set, the argument the incoming one - in
+    eval_declaration and in eval_application alike. Reversed, every application of an annotated function gets the
+    declaration's operationId, summary, description whatever the resource says."""
+    R = c.rule(rule, 'ANNOTATION-PRECEDENCE: the annotations of a use site override those of the declaration it uses, for plain declarations and functions alike')
+    n = 0
+    for q in ('oal_compiler::eval::eval_declaration', 'oal_compiler::eval::eval_application'):
+        fn = facts.normalised(c.anchor(R, q))
+        idx = MF.defs_index(fn)
+        annp = [i for i in range(1, fn.mir['argc'] + 1) if 'AnnRef' in fn.mir['locals'][i]['ty'] or 'Annotation' in fn.mir['locals'][i]['ty']]
+        T = taint_forward(fn, annp)
+        for b, t in P.call_blocks(fn, 'Annotation::extend'):
+            if len(t['args']) < 2 or 'l' not in t['args'][0] or 'l' not in t['args'][1]:
+                continue
+            n += 1
+            recv = MF.slice_back(fn, t['args'][0]['l'], idx)
+            arg = MF.slice_back(fn, t['args'][1]['l'], idx)
+            recv_decl = any(P.name_is(x, 'compose_annotations') for x, _, _ in recv['calls'])
+            recv_use = bool(set(annp) & recv['args']) and not recv_decl
+            arg_use = bool(set(annp) & arg['args']) or t['args'][1]['l'] in T
+            arg_decl = any(P.name_is(x, 'compose_annotations') for x, _, _ in arg['calls'])
+            inst = {'fn': q.split('::')[-1], 'receiver': 'declaration' if recv_decl else 'use site' if recv_use else '?', 'argument': 'use site' if arg_use and not arg_decl else 'declaration' if arg_decl else '?'}
+            if recv_decl and arg_use and not arg_decl:
+                c.ok(R, inst)
+            elif recv_use and arg_decl:
+                c.bad(R, '%s:declaration-overrides-use-site' % q.split('::')[-1], '%s extends the use-site annotations with the declaration\'s: the declaration wins, so every use of it is emitted with the declaration\'s operationId / summary / description whatever the use says (two operations, one operationId)' % q, **inst)
+            else:
+                c.skip(R, q, 'annotation composition not recognised')
+    c.floor(R, 'sites where declaration and use-site annotations are merged', n, 2)
+
+
+def r23_inner_wins(c, facts, rule='C05.R15'):
+    """of two annotations written around one expression the inner one wins: eval_terminal extends the incoming (outer)
+    set by the term's own, and eval_binding - where a parameter stands for the argument - extends the set at the use of
+    the parameter (outer) by the one the argument was evaluated with (inner). Turning `(e `a`) `b`` into
+    `let f x = x `b`; f (e `a`)` must not change which one is emitted."""
+    R = c.rule(rule, 'INNER-WINS: where an inner and an outer annotation set meet (a term, a parameter standing for its argument) the outer set is extended by the inner one')
+    n = 0
+    for q, inner_src in (('oal_compiler::eval::eval_terminal', 'compose_annotations'), ('oal_compiler::eval::eval_binding', 'lookup_binding')):
+        fn = facts.normalised(c.anchor(R, q))
+        idx = MF.defs_index(fn)
+        annp = [i for i in range(1, fn.mir['argc'] + 1) if 'AnnRef' in fn.mir['locals'][i]['ty'] or 'Annotation' in fn.mir['locals'][i]['ty']]
+        for b, t in P.call_blocks(fn, 'Annotation::extend'):
+            if len(t['args']) < 2 or 'l' not in t['args'][0] or 'l' not in t['args'][1]:
+                continue
+            n += 1
+            recv = MF.slice_back(fn, t['args'][0]['l'], idx)
+            arg = MF.slice_back(fn, t['args'][1]['l'], idx)
+            recv_inner = any(P.name_is(x, inner_src) for x, _, _ in recv['calls'])
+            arg_inner = any(P.name_is(x, inner_src) for x, _, _ in arg['calls'])
+            recv_outer = bool(set(annp) & recv['args'])
+            arg_outer = bool(set(annp) & arg['args'])
+            inst = {'fn': q.split('::')[-1], 'receiver': 'inner' if recv_inner else 'outer' if recv_outer else '?', 'argument': 'inner' if arg_inner else 'outer' if arg_outer else '?'}
+            if recv_outer and not recv_inner and arg_inner:
+                c.ok(R, inst)
+            elif recv_inner and arg_outer and not arg_inner:
+                c.bad(R, '%s:outer-overrides-inner' % q.split('::')[-1], '%s extends the inner annotation set by the outer one: the outer annotation wins here while it loses where the same expression is written in place (a single-use function changes the document)' % q, **inst)
+            else:
+                c.skip(R, q, 'annotation composition not recognised')
+    c.floor(R, 'sites where an inner and an outer annotation set are merged', n, 2)
 
 
 def r18_per_content(c, facts, rule='C02.R18'):
@@ -678,12 +778,46 @@ def r15b_shared_rec(c, facts, rule='C02.R15'):
     returned_rec_annotations(c, facts, R, fn, T, idx)
 
 
+def range_key_verbatim(c, facts, R):
+    """a content enters a range under (its status, its media type), both as declared: the emitter prints the key, so a key
+    that is folded (lower-cased, trimmed, defaulted) changes what is emitted - and lets two different declarations collide"""
+    fn = facts.normalised(c.anchor(R, 'oal_compiler::eval::cast_ranges'))
+    idx = MF.defs_index(fn)
+    n = 0
+    for b, blk in fn.blocks():
+        for st in blk['stmts']:
+            rv = st['rv'] if st['s'] == 'assign' else None
+            if not rv or rv['r'] != 'aggr' or rv.get('ak') != 'tuple' or len(rv['ops']) != 2:
+                continue
+            tys = [o.get('ty', '') for o in rv['ops']]
+            if 'HttpStatus' not in tys[0] or 'String' not in tys[1] or not tys[0].startswith('std::option::Option<'):
+                continue
+            n += 1
+            for what, o in zip(('status', 'media'), rv['ops']):
+                sl = MF.slice_back(fn, o['l'], idx) if 'l' in o else {'calls': [], 'consts': [o]}
+                names = sorted({P.strip(x).split('::')[-1] for x, _, _ in sl['calls']} - {'clone', 'cast_content', 'deref', 'as_ref', 'borrow'})
+                fields = set()
+                for l in sl.get('locals', set()) | ({o['l']} if 'l' in o else set()):
+                    for kind, bi, x in idx.get(l, []):
+                        if kind == 'assign' and x['rv']['r'] in ('use', 'ref'):
+                            pl = x['rv']['op'] if x['rv']['r'] == 'use' else x['rv']['place']
+                            if 'l' in pl:
+                                fields |= set(MF.field_path(pl)[-1:])
+                inst = {'key component': what, 'through': names, 'from fields': sorted(fields)}
+                if names or what not in fields:
+                    c.bad(R, 'cast_ranges:key-%s-not-verbatim:%s' % (what, ','.join(names) or 'other-source'), 'cast_ranges keys a content by a %s that is not the declared one unchanged (%s): the response is emitted under the altered key, and two contents that differ only there collide' % (what, names or sorted(fields)), **inst)
+                else:
+                    c.ok(R, inst)
+    c.floor(R, 'range keys built from a content', n, 1)
+
+
 def r16_range_key(c, facts, rule='C02.R16'):
     """Responses are keyed by (status, media) from the moment `::` combines them (Ranges is a map): whatever decides the
     status of a content - the `status=` tag, or 204 for a content without a body - must be decided when the content is
     evaluated, and the emitter must use the key as it is.  A default applied only at emission makes `<item> :: <>` two
     entries with the same key, of which the map keeps one."""
     R = c.rule(rule, 'RANGE-KEY: the status of a response is fixed when its content is evaluated; the emitter uses the key of the range unchanged')
+    c.run(lambda c2: range_key_verbatim(c2, facts, R))
     ev = c.anchor(R, 'oal_compiler::eval::eval_content')
     idx = MF.defs_index(ev)
     found = None
@@ -724,7 +858,9 @@ def run(c, facts):
     c.run(lambda c: grammar.agree(c, facts, 'C02.R14', floor=12))
     c.run(r18_per_content, facts)
     c.run(r19_precedence, facts)
+    c.run(r21_annotation_precedence, facts)
     c.run(r20_method_free, facts)
+    c.run(r22_operands_whole, facts)
     c.run(r13_merged_assign, facts)
     import c05 as _c05
     R17 = c.rule('C02.R17', 'ANNOTATION-PLACE: annotations written at a use, on a parameter occurrence or on parentheses reach the value they are written on, with the precedence the language defines (shared with C05.R1)')
